@@ -100,6 +100,9 @@ def buildGraph (U : Universe) (origins : List (Nat × Abs.Origin)) (kinds : List
   let g0 : RG := { nodes := #[.root, .unresolved] }
   dropUnresolved ((kinds.foldl (addClause U origins) (g0, [])).1)
 
+/-- the edges of a graph as (source node, target node, kind) -/
+def nodeEdges (g : RG) : List (Node × Node × EKind) := g.edges.toList.map (fun e => (g.node e.1, g.node e.2.1, e.2.2))
+
 /-! ### `simplify` -/
 
 def insertNat (x : Nat) : List Nat → List Nat
